@@ -23,11 +23,12 @@ class Schema:
         self.box = box                        # a shared mutable container cell: single field 'val'
         self.eq_inline = eq_inline            # == is the class's own __eq__, inlined from the real source
 
-def schema(family, classes, fields, eq_fields=None, invariant=None, box=False, eq_inline=False, funfields=None):
+def schema(family, classes, fields, eq_fields=None, invariant=None, box=False, eq_inline=False, funfields=None, register=True):
+    """register=False: a second view of classes that already have a schema (used only through an explicit self_type)"""
     s = Schema(family, classes, fields, eq_fields, invariant, box, eq_inline, funfields)
     SCHEMAS[family] = s
     for c in s.classes:
-        CLASS_FAMILY[c] = family
+        if register or c not in CLASS_FAMILY: CLASS_FAMILY[c] = family
     return T.Obj(family)
 
 class Contract:
